@@ -7,6 +7,7 @@ import (
 	"strconv"
 	"strings"
 	"testing"
+	"unicode"
 
 	"pgregory.net/rapid"
 
@@ -21,6 +22,9 @@ const P = "C16"
 type sidCase struct {
 	Authority uint64   `json:"authority48"`
 	Subs      []uint32 `json:"sub_authorities"`
+	// bytes that follow the SID in the buffer (a SID inside a security descriptor, an ACE or an
+	// attribute value is followed by other data): the count byte says where the SID ends
+	Trailing vf.Hex `json:"trailing,omitempty"`
 }
 
 func (c sidCase) bytes() []byte {
@@ -28,7 +32,7 @@ func (c sidCase) bytes() []byte {
 	for _, s := range c.Subs {
 		b = binary.LittleEndian.AppendUint32(b, s)
 	}
-	return b
+	return append(b, c.Trailing...)
 }
 
 // MS-DTYP 2.4.2.1: S-1-IdentifierAuthority-SubAuthority1-...; the authority is
@@ -57,7 +61,10 @@ func checkSID(c sidCase) []vf.Finding {
 	if strings.Contains(got, "--") {
 		kind = "double-dash"
 	}
-	return []vf.Finding{vf.F("ldap.ParseSIDFromBytes", kind, "%x (%d sub-authorities): got %q want %q", raw, len(c.Subs), got, dec)}
+	if len(c.Trailing) > 0 && kind != "double-dash" {
+		kind = "sid-followed-by-other-bytes-differs"
+	}
+	return []vf.Finding{vf.F("ldap.ParseSIDFromBytes", kind, "%x (%d sub-authorities, %d trailing bytes): got %q want %q", raw, len(c.Subs), len(c.Trailing), got, dec)}
 }
 
 var subEdges = []uint32{0, 1, 18, 21, 32, 500, 512, 513, 544, 0x7FFFFFFF, 0x80000000, 0xFFFFFFFF}
@@ -88,7 +95,13 @@ func TestSIDFormat(t *testing.T) {
 		for i := range subs {
 			subs[i] = genSub(t)
 		}
-		return sidCase{genAuthority(t), subs}
+		var trailing []byte
+		if rapid.IntRange(0, 2).Draw(t, "followed") == 0 {
+			// 1..8 bytes: part of, exactly, or more than one further sub-authority's worth
+			tl := rapid.IntRange(1, 8).Draw(t, "trailingLen")
+			trailing = rapid.SliceOfN(rapid.Byte(), tl, tl).Draw(t, "trailing")
+		}
+		return sidCase{genAuthority(t), subs, trailing}
 	}, checkSID, func(c sidCase) bool { return len(c.Subs) >= 1 })
 }
 
@@ -104,8 +117,20 @@ func TestSIDCountsExhaustive(t *testing.T) {
 					for i := range subs {
 						subs[i] = fill + uint32(i)
 					}
-					yield(sidCase{auth, subs})
+					yield(sidCase{auth, subs, nil})
 				}
+			}
+			// every count followed by 1..8 further bytes
+			for tl := 1; tl <= 8; tl++ {
+				subs := make([]uint32, n)
+				for i := range subs {
+					subs[i] = 21 + uint32(i)
+				}
+				trailing := make([]byte, tl)
+				for i := range trailing {
+					trailing[i] = byte(0xF0 + i)
+				}
+				yield(sidCase{5, subs, trailing})
 			}
 		}
 	}, checkSID, func(c sidCase) bool { return len(c.Subs) != 4 && len(c.Subs) != 5 })
@@ -260,7 +285,14 @@ func genLabel(t *rapid.T) string {
 				rs[i] = 'x'
 			}
 		case 2:
-			rs[i] = alpha.Rune(t, `,+"\<>;=# .`)
+			// a letter or digit of the shared alphabet (stated assumption: DC values are DNS labels; the
+			// alphabet also offers controls, spaces and format characters, which no label contains)
+			for {
+				if r := alpha.Rune(t, `,+"\<>;=# .`); unicode.IsLetter(r) || unicode.IsDigit(r) {
+					rs[i] = r
+					break
+				}
+			}
 		default:
 			rs[i] = rune(rapid.IntRange('a', 'z').Draw(t, "l"))
 		}
@@ -286,6 +318,19 @@ func genValue(t *rapid.T) string {
 
 func genDN(t *rapid.T) dnCase {
 	var rdns []rdn
+	// "arbitrary RDN sequences": in a third of the cases DC components and other types alternate
+	// freely, so the DC components are not one contiguous run
+	if rapid.IntRange(0, 2).Draw(t, "shape") == 0 {
+		n := rapid.IntRange(1, 9).Draw(t, "nRDN")
+		for i := 0; i < n; i++ {
+			if rapid.Bool().Draw(t, "isDC") {
+				rdns = append(rdns, rdn{"DC", genLabel(t)})
+			} else {
+				rdns = append(rdns, rdn{otherTypes[rapid.IntRange(0, len(otherTypes)-1).Draw(t, "type")], genValue(t)})
+			}
+		}
+		return dnCase{rdns}
+	}
 	nOther := rapid.IntRange(0, 5).Draw(t, "nOther")
 	for i := 0; i < nOther; i++ {
 		rdns = append(rdns, rdn{otherTypes[rapid.IntRange(0, len(otherTypes)-1).Draw(t, "type")], genValue(t)})
@@ -302,9 +347,26 @@ func genDN(t *rapid.T) dnCase {
 	return dnCase{rdns}
 }
 
+// dcRuns counts the maximal runs of adjacent DC components.
+func dcRuns(c dnCase) int {
+	runs, in := 0, false
+	for _, r := range c.RDNs {
+		if r.Type == "DC" && !in {
+			runs++
+		}
+		in = r.Type == "DC"
+	}
+	return runs
+}
+
 func TestDNDomain(t *testing.T) {
 	s := vf.Begin(t, P, "dn-domain")
-	vf.Rapid(s, vf.N(30000, 400000), genDN, checkDN, func(c dnCase) bool {
+	vf.Rapid(s, vf.N(30000, 400000), genDN, func(c dnCase) []vf.Finding {
+		if dcRuns(c) >= 2 {
+			s.Class("dc-components-interrupted-by-other-rdns")
+		}
+		return checkDN(c)
+	}, func(c dnCase) bool {
 		dcs := 0
 		for _, r := range c.RDNs {
 			if r.Type == "DC" {
